@@ -205,8 +205,10 @@ type c08World struct {
 	lastCl            int
 	herr              string
 	ctx               context.Context
-	noSweepUnregister bool  // observed: the sweeper's close leaves the connection record behind
-	spareID           int64 // a provisioned second identity reused across the histories of a world
+	hsSeq             int    // control handshakes so far in this world (selects the connection_type variant)
+	tag               string // appended to every signature judged while set (names the interleaving of the heartbeat-window histories)
+	noSweepUnregister bool   // observed: the sweeper's close leaves the connection record behind
+	spareID           int64  // a provisioned second identity reused across the histories of a world
 	spareSecret       string
 }
 
@@ -227,6 +229,20 @@ type c08Fault struct {
 	seen   map[string]int
 	order  []string // distinct "<op> <key class>" in first-seen order
 	fired  string
+	// one-shot hold: the next Get of holdKey parks its goroutine until release
+	holdKey string
+	parked  chan struct{}
+	release chan struct{}
+}
+
+// holdNextGet arranges that the next Get of key parks; returns the channels to wait on /
+// to close.
+func (f *c08Fault) holdNextGet(key string) (parked <-chan struct{}, release chan<- struct{}) {
+	p, r := make(chan struct{}), make(chan struct{})
+	f.mu.Lock()
+	f.holdKey, f.parked, f.release = key, p, r
+	f.mu.Unlock()
+	return p, r
 }
 
 func c08KeyClass(key string) string {
@@ -238,6 +254,17 @@ func c08KeyClass(key string) string {
 
 func (f *c08Fault) hook(tier, op, key string) error {
 	f.mu.Lock()
+	if f.holdKey != "" && op == "Get" && key == f.holdKey {
+		p, r := f.parked, f.release
+		f.holdKey = ""
+		f.mu.Unlock()
+		close(p)
+		select {
+		case <-r:
+		case <-time.After(10 * time.Second): // never a verdict: the history is discarded by its watchdog
+		}
+		return nil
+	}
 	defer f.mu.Unlock()
 	if !f.armed {
 		return nil
@@ -332,6 +359,29 @@ func (w *c08World) reset(nClients int) {
 	}
 }
 
+// c08CtlTypes: the values of HandshakeRequest.ConnectionType that the session layer treats
+// as a control connection ("control", absent, anything that is not "tunnel").
+var c08CtlTypes = []string{"control", "", "main"}
+
+// ctl returns the connection_type of the next control handshake: the variants rotate
+// deterministically over all control handshakes of a world, so every scenario is
+// exercised with every variant.
+func (w *c08World) ctl() string {
+	t := c08CtlTypes[w.hsSeq%len(c08CtlTypes)]
+	w.hsSeq++
+	w.run.Count(fmt.Sprintf("control_handshakes_type=%q", t), 1)
+	return t
+}
+
+// firstConnect registers a brand-new anonymous client with the given connection_type.
+func c08FirstConnect(mc *miniClient, ctype string) (*packet.HandshakeResponse, error) {
+	r, err := mc.handshake(&packet.HandshakeRequest{ClientID: 0, Token: "new-client", Version: "3.0", Protocol: "tcp", ConnectionType: ctype})
+	if r != nil && r.Success {
+		mc.ClientID, mc.Secret = r.ClientID, r.SecretKey
+	}
+	return r, err
+}
+
 func (w *c08World) ev(cl *c08Client, kind, desc string) {
 	w.lastEv, w.lastCl = kind, cl.idx
 	w.kinds = append(w.kinds, kind)
@@ -368,15 +418,16 @@ func (w *c08World) connect(cl *c08Client, node int) bool {
 		return false
 	}
 	ok := false
+	ctype := w.ctl()
 	if cl.id == 0 {
-		r, herr := mc.FirstConnect()
+		r, herr := c08FirstConnect(mc, ctype)
 		if herr == nil && r != nil && r.Success && r.ClientID > 0 {
 			cl.id, cl.secret, ok = r.ClientID, r.SecretKey, true
 		} else {
 			err = fmt.Errorf("first connect: %v %+v", herr, r)
 		}
 	} else {
-		ok, err = mc.Login(cl.id, cl.secret, "control")
+		ok, err = mc.Login(cl.id, cl.secret, ctype)
 	}
 	r0 := time.Now()
 	if !ok {
@@ -394,7 +445,7 @@ func (w *c08World) connect(cl *c08Client, node int) bool {
 	cl.cloudDirty = ""
 	cl.active = true
 	cl.lastNode = node
-	w.ev(cl, "c"+strings.ToUpper(string(rune('a'+node))), fmt.Sprintf("connect@%s=%s", n.NodeID, mc.ConnID))
+	w.ev(cl, "c"+strings.ToUpper(string(rune('a'+node))), fmt.Sprintf("connect[type=%q]@%s=%s", ctype, n.NodeID, mc.ConnID))
 	w.run.Count("handshakes", 1)
 	if len(cl.zombies) > 0 && cl.zombies[len(cl.zombies)-1].node != node {
 		w.run.Count("reconnect_other_node|"+w.be.name, 1)
@@ -409,7 +460,7 @@ func (w *c08World) relogin(cl *c08Client) bool {
 		return false
 	}
 	c0 := w.be.sync()
-	ok, err := c.mc.Login(cl.id, cl.secret, "control")
+	ok, err := c.mc.Login(cl.id, cl.secret, w.ctl())
 	r0 := time.Now()
 	if !ok {
 		if _, alive := w.nodes[c.node].SM.GetConnection(c.id); !alive {
@@ -482,7 +533,7 @@ func (w *c08World) takeover(cl, by *c08Client) bool {
 	}
 	w.settleDropped(by)
 	c0 := w.be.sync()
-	ok, err := c.mc.Login(by.id, by.secret, "control")
+	ok, err := c.mc.Login(by.id, by.secret, w.ctl())
 	r0 := time.Now()
 	if !ok {
 		if _, alive := w.nodes[c.node].SM.GetConnection(c.id); !alive {
@@ -516,7 +567,7 @@ func (w *c08World) reloginZombie(cl *c08Client) bool {
 	}
 	z := cl.zombies[len(cl.zombies)-1]
 	c0 := w.be.sync()
-	ok, err := z.mc.Login(cl.id, cl.secret, "control")
+	ok, err := z.mc.Login(cl.id, cl.secret, w.ctl())
 	r0 := time.Now()
 	if !ok {
 		// swept meanwhile, or its node already closed its stream when the client
@@ -886,12 +937,12 @@ func (w *c08World) check() {
 	for ci, cl := range w.clients {
 		for ni, a := range all[ci] {
 			if p := w.judge(cl, ni, a); p != nil {
-				w.run.Violation(p.sig, p.detail)
+				w.run.Violation(p.sig+w.tag, p.detail)
 			}
 		}
 		for ni, a := range cloud[ci] {
 			if p := w.judgeCloud(cl, ni, a.node, a.err); p != nil {
-				w.run.Violation(p.sig, p.detail)
+				w.run.Violation(p.sig+w.tag, p.detail)
 			}
 		}
 	}
@@ -1391,7 +1442,7 @@ func (w *c08World) handshakeWithFault(f *c08Fault, cl *c08Client, scen string, t
 	case "relogin":
 		c := cl.cur
 		c0 := w.be.sync()
-		ok, _ := c.mc.Login(cl.id, cl.secret, "control")
+		ok, _ := c.mc.Login(cl.id, cl.secret, w.ctl())
 		if ok {
 			c.hs = c08Span{c0, time.Now()}
 			c.lastKA, c.chain = c.hs, true
@@ -1412,7 +1463,8 @@ func (w *c08World) connectQuiet(cl *c08Client, node int) bool {
 	if err != nil {
 		return false
 	}
-	if ok, _ := mc.Login(cl.id, cl.secret, "control"); !ok {
+	ctype := w.ctl()
+	if ok, _ := mc.Login(cl.id, cl.secret, ctype); !ok {
 		mc.CloseByPeer()
 		w.trace = append(w.trace, fmt.Sprintf("c%d:handshake refused@%s", cl.idx, n.NodeID))
 		return false
@@ -1423,7 +1475,7 @@ func (w *c08World) connectQuiet(cl *c08Client, node int) bool {
 	}
 	cl.cur = &c08Conn{mc: mc, node: node, id: mc.ConnID, hs: sp, lastKA: sp, chain: true}
 	cl.active, cl.lastNode, cl.cloudDirty, cl.cleaned = true, node, "", 0
-	w.ev(cl, "c"+strings.ToUpper(string(rune('a'+node))), fmt.Sprintf("connect@%s=%s", n.NodeID, mc.ConnID))
+	w.ev(cl, "c"+strings.ToUpper(string(rune('a'+node))), fmt.Sprintf("connect[type=%q]@%s=%s", ctype, n.NodeID, mc.ConnID))
 	return true
 }
 
@@ -1569,7 +1621,7 @@ func TestVerifC08Faults(t *testing.T) {
 								if !v.bad {
 									continue
 								}
-								run.Violation(fmt.Sprintf("C08:fault|not-recovered|view=%s|failed=%s|scenario=%s", v.name, fired, scen), map[string]any{
+								run.Violation(fmt.Sprintf("C08:fault|not-recovered|view=%s|failed=%s|scenario=%s", v.name, c08OrNone(fired), scen), map[string]any{
 									"backend": be, "scenario": scen, "target": k, "failed_operation": fired, "handshake_accepted": accepted,
 									"heartbeats_after_fault": c08RecoveryHeartbeats, "answers": got,
 									"observed_still_wrong_after_heartbeats": c08RecoveryHeartbeats + extraHB, "observed_still_wrong": stillWrong,
@@ -1611,6 +1663,132 @@ func TestVerifC08Faults(t *testing.T) {
 	}
 	c08Floors(run, "faults_injected", "fault_handshake_accepted")
 	run.Floor("located_after_1_heartbeats", 1)
+}
+
+// ---------------------------------------------------------------- heartbeat in flight vs close / re-login
+
+// TestVerifC08HeartbeatWindow: a heartbeat of connection X is parked inside the handler at
+// one of its storage reads (gated store), the competing event runs to completion on the
+// same node, then the heartbeat is released; the usual reference is judged at quiescence.
+func TestVerifC08HeartbeatWindow(t *testing.T) {
+	run := vk.Start(t, "C08", "hbwindow")
+	defer run.Finish()
+	run.Rule("per backend, two nodes on gated stores, lifetime 5 min: a heartbeat of the client's connection X is held inside handleHeartbeat at {its read of the connection record, its read of the runtime state}; meanwhile {X is closed (last connection), the client re-handshakes on a new connection on the same node (supersedes X)} runs to completion; the heartbeat is released and finishes; then all nodes are looked up (both views) with the ordinary reference, X is cleaned up if still open and all nodes are looked up again; variants: X's location record {present, deleted beforehand = lost/expired}; distinct = backend x hold point x competing event x record variant")
+	worlds := make([]*c08World, len(c08BackendNames))
+	faults := make([]*c08Fault, len(c08BackendNames))
+	for i, be := range c08BackendNames {
+		faults[i] = &c08Fault{}
+		worlds[i] = c08NewWorldF(t, run, be, c08LongTTL, 2, false, faults[i])
+	}
+	var wg sync.WaitGroup
+	for i, be := range c08BackendNames {
+		w, f, be := worlds[i], faults[i], be
+		wg.Add(1)
+		go func() {
+			defer wg.Done()
+			for _, hold := range []string{"conn-record", "runtime-state"} {
+				for _, other := range []string{"close", "relogin-same-node"} {
+					for _, lost := range []bool{false, true} {
+						if run.Violations() > 40 || w.herr != "" {
+							return
+						}
+						name := fmt.Sprintf("%s|hold=%s|vs=%s|record-lost-before=%v", be, hold, other, lost)
+						run.Case(name, nil)
+						w.reset(1)
+						cl := w.clients[0]
+						if !w.connect(cl, 0) {
+							return
+						}
+						w.heartbeat(cl)
+						w.check()
+						x := cl.cur
+						st, _ := w.be.storeFor(0)
+						if w.be.name == "hybrid-pernode" {
+							st = w.be.perNode[0]
+						}
+						if lost {
+							// the location record of X is gone (write lost / lifetime over)
+							_ = st.Delete("tunnox:conn_state:" + x.id)
+							_ = st.Delete(fmt.Sprintf("tunnox:client_conn:%d", cl.id))
+							w.trace = append(w.trace, "c0:location record of "+x.id+" lost")
+						}
+						key := "tunnox:conn_state:" + x.id
+						if hold == "runtime-state" {
+							key = fmt.Sprintf("tunnox:runtime:client:state:%d", cl.id)
+						}
+						parked, release := f.holdNextGet(key)
+						done := make(chan struct{})
+						go func() {
+							defer close(done)
+							_ = x.mc.Send(&packet.TransferPacket{PacketType: packet.Heartbeat})
+						}()
+						select {
+						case <-parked:
+						case <-done:
+							// the handler never read that key: no window
+							run.Count("window_not_reached", 1)
+							f.holdNextGet("")
+							close(release)
+							w.closeAll()
+							continue
+						case <-time.After(10 * time.Second):
+							run.Count("watchdog", 1)
+							close(release)
+							<-done
+							w.harnessError("heartbeat window %s: heartbeat neither parked nor returned", name)
+							return
+						}
+						w.trace = append(w.trace, fmt.Sprintf("c0:heartbeat %s IN FLIGHT (held at its read of %s)", x.id, hold))
+						switch other {
+						case "close":
+							w.closeCur(cl, false)
+						case "relogin-same-node":
+							w.connect(cl, 0)
+						}
+						close(release)
+						select {
+						case <-done:
+						case <-time.After(10 * time.Second):
+							run.Count("watchdog", 1)
+							w.harnessError("heartbeat window %s: released heartbeat did not return", name)
+							return
+						}
+						x.mc.DrainRaw()
+						w.trace = append(w.trace, "c0:heartbeat "+x.id+" completed")
+						run.Count("heartbeat_windows|"+be, 1)
+						run.Count("heartbeat_windows_vs_"+other, 1)
+						w.lastEv, w.lastCl = "hz", cl.idx
+						w.tag = fmt.Sprintf("|heartbeat-in-flight(held-at=%s,vs=%s)", hold, other)
+						w.check()
+						run.Eval(1)
+						run.Distinct(name)
+						// the superseded connection is cleaned up late; the client must stay locatable
+						for len(cl.zombies) > 0 {
+							w.cleanup(cl, false)
+							w.check()
+						}
+						if cl.cur != nil {
+							w.heartbeat(cl)
+							w.check()
+						}
+						w.closeAll()
+						w.tag = ""
+					}
+				}
+			}
+		}()
+	}
+	wg.Wait()
+	for i, w := range worlds {
+		herr := w.herr
+		w.close()
+		if herr != "" {
+			t.Fatalf("c08: harness error on backend %s: %s", c08BackendNames[i], herr)
+		}
+	}
+	c08Floors(run, "heartbeat_windows")
+	run.Floor("heartbeat_windows_vs_close", 10)
+	run.Floor("heartbeat_windows_vs_relogin-same-node", 10)
 }
 
 // ---------------------------------------------------------------- keep-alive (timed)
@@ -1784,4 +1962,11 @@ func TestVerifC08KeepAlive(t *testing.T) {
 		run.Floor("silent_client_swept|"+b, 1)
 	}
 	run.Floor("heartbeats", 200)
+}
+
+func c08OrNone(s string) string {
+	if s == "" {
+		return "none"
+	}
+	return s
 }
